@@ -330,6 +330,11 @@ def run(fx, tier):
                     v.check(wt == 1, 'R-PAIR', '%s:path%d:quota' % (name, pi),
                             'path holding quota completes with free_pid(id, %s)' % bool(wt),
                             key='C07:R-PAIR:publish_send_op::%s:quota-not-returned' % (f.tag or f.n), where=fr.where())
+    # the Receive Maximum is read from mqtt_ctx::ca_props: it must be the CONNACK of THIS connection (shared with C15)
+    from c15 import capability_source
+    if 'R-OWN' not in v.rules:
+        v.rule('R-OWN', 'connack_property reads mqtt_ctx::ca_props, stored only by connect_op::on_connack before the connect can complete or continue')
+    capability_source(fx, v, 'C07')
     v.expect_min('R-OWN', 20, 'writers + callers × TUs')
     v.expect_min('R-DOM', 30, 'do_write/throttled_op_done/resend shape × TUs')
     v.expect_min('R-FLOW', 60, 'send and free sites on paths')
